@@ -2,10 +2,26 @@
 #define VERIF_PYBIND11_NUMPY_H
 #include <pybind11/pybind11.h>
 namespace pybind11 {
+/* a one-owner array: like pybind11's, array_t(shape, ptr) COPIES the data it is given, request() exposes the
+   array's own storage */
 template <class T> struct array_t {
-    array_t() {}
-    template <class S> array_t(const S &, const T *) {}
-    buffer_info request() { return buffer_info(); }
+    std::shared_ptr<std::vector<T>> verif_buf;
+    std::vector<ssize_t> verif_shape;
+    array_t() : verif_buf(std::make_shared<std::vector<T>>()) {}
+    template <class S> array_t(const S &shape, const T *p) {
+        ssize_t n = 1;
+        for (auto s : shape) { verif_shape.push_back((ssize_t)s); n *= (ssize_t)s; }
+        verif_buf = std::make_shared<std::vector<T>>(p, p + n);
+    }
+    buffer_info request() {
+        buffer_info b;
+        b.ptr = verif_buf->data();
+        b.shape = verif_shape;
+        b.strides.assign(verif_shape.size(), (ssize_t)sizeof(T));
+        b.size = (ssize_t)verif_buf->size();
+        b.ndim = (ssize_t)verif_shape.size();
+        return b;
+    }
 };
 }  // namespace pybind11
 #endif
